@@ -40,6 +40,17 @@ var c16Positions = []c16Pos{
 	{"path-head-dot", false, func(w string) string { return w + ".x = :v" }},
 	{"path-head-index", false, func(w string) string { return w + "[0] = :v" }},
 	{"under-not-and", false, func(w string) string { return "NOT (a = :v AND " + w + " <> :v)" }},
+	// the same without any space around the comparator, and on continuation lines
+	{"cmp-right-tight-ne", false, func(w string) string { return "a<>" + w }},
+	{"cmp-right-tight-lt", false, func(w string) string { return "a<" + w }},
+	{"cmp-right-tight-ge", false, func(w string) string { return "a>=" + w }},
+	{"cmp-right-tight-eq", false, func(w string) string { return "a=" + w }},
+	{"cmp-left-tight", false, func(w string) string { return w + "<>:v" }},
+	{"size-cmp-tight", false, func(w string) string { return "size(a)<" + w }},
+	{"second-line-crlf", false, func(w string) string { return "a = :v\r\nAND " + w + "\r\n= :v" }},
+	{"second-line-tab", false, func(w string) string { return "a = :v\n\tAND\t" + w + "\t<> :v" }},
+	{"set-target-tight", true, func(w string) string { return "SET " + w + "=:v" }},
+	{"set-source-tight", true, func(w string) string { return "SET a=" + w }},
 	{"set-target", true, func(w string) string { return "SET " + w + " = :v" }},
 	{"set-target-second", true, func(w string) string { return "SET a = :v, " + w + " = :v" }},
 	{"set-source", true, func(w string) string { return "SET a = " + w }},
